@@ -12,8 +12,66 @@ class ModelObligation(Exception):
     pass
 
 
+class Dual:
+    """dual number for forward-mode differentiation: a finite real cell `val` and tangents {parameter name: cell}.
+    Arithmetic on Duals follows the sum/product/quotient rules; `detach` drops the tangents (engine stub)."""
+
+    __slots__ = ("val", "tan")
+
+    def __init__(self, val, tan=None):
+        self.val = val
+        self.tan = dict(tan or {})
+
+    def __repr__(self):
+        return f"Dual({self.val}, {self.tan})"
+
+
+def dual(v):
+    return v if isinstance(v, Dual) else Dual(v, {})
+
+
+def _dual_lin(a, b, sign):
+    a, b = dual(a), dual(b)
+    tan = {}
+    for k in set(a.tan) | set(b.tan):
+        x, y = a.tan.get(k, 0.0), b.tan.get(k, 0.0)
+        tan[k] = s_add(x, y) if sign > 0 else s_sub(x, y)
+    return Dual(s_add(a.val, b.val) if sign > 0 else s_sub(a.val, b.val), tan)
+
+
+def _dual_arith(name):
+    """decorator: route calls with a Dual operand through the differentiation rules"""
+    def deco(f):
+        def g(a, b=None, *rest, **kw):
+            if not (isinstance(a, Dual) or isinstance(b, Dual)):
+                return f(a, *rest, **kw) if name == "neg" else f(a, b, *rest, **kw)
+            if name == "neg":
+                return Dual(s_neg(a.val), {k: s_neg(t) for k, t in a.tan.items()})
+            if name == "add":
+                return _dual_lin(a, b, +1)
+            if name == "sub":
+                return _dual_lin(a, b, -1)
+            a_, b_ = dual(a), dual(b)
+            if name == "mul":
+                tan = {}
+                for k in set(a_.tan) | set(b_.tan):
+                    tan[k] = s_add(s_mul(a_.tan.get(k, 0.0), b_.val), s_mul(a_.val, b_.tan.get(k, 0.0)))
+                return Dual(s_mul(a_.val, b_.val), tan)
+            if name == "div":      # (a/b)' = a'/b - a b'/b^2 ; the divisor must be non-zero (model obligation of the harness)
+                q = s_div(a_.val, b_.val)
+                tan = {}
+                for k in set(a_.tan) | set(b_.tan):
+                    tan[k] = s_sub(s_div(a_.tan.get(k, 0.0), b_.val), s_div(s_mul(q, b_.tan.get(k, 0.0)), b_.val))
+                return Dual(q, tan)
+            raise ValueError(name)
+        g.__name__ = f.__name__
+        g.__doc__ = f.__doc__
+        return g
+    return deco
+
+
 def is_sym(v):
-    return isinstance(v, (z3.ExprRef, XR))
+    return isinstance(v, (z3.ExprRef, XR, Dual))
 
 
 # ---- IEEE float32 cells (used where rounding is the subject, e.g. the SpecAugment draws) ----
@@ -196,6 +254,7 @@ def _ite_const(v):
 MUL_UF = None  # optionally an uninterpreted commutative product (set by a harness)
 
 
+@_dual_arith("neg")
 def s_neg(a):
     if is_fp(a):
         return z3.fpNeg(a)
@@ -206,6 +265,7 @@ def s_neg(a):
     return -(to_real_expr(a) if isreal(a) else to_int_expr(a))
 
 
+@_dual_arith("add")
 def s_add(a, b):
     if anyfp(a, b):
         return z3.fpAdd(z3.RNE(), to_fp(a), to_fp(b))
@@ -230,6 +290,7 @@ def s_add(a, b):
     return x + y
 
 
+@_dual_arith("sub")
 def s_sub(a, b):
     if anyfp(a, b):
         return z3.fpSub(z3.RNE(), to_fp(a), to_fp(b))
@@ -243,6 +304,7 @@ def s_sub(a, b):
     return x - y
 
 
+@_dual_arith("mul")
 def s_mul(a, b):
     if anyfp(a, b):
         return z3.fpMul(z3.RNE(), to_fp(a), to_fp(b))
@@ -264,6 +326,13 @@ def s_mul(a, b):
                 return to_real_expr(q) if isinstance(p, float) else q
             x, y = lift2(p, q)
             return x * y
+    # a rational numeral that no float represents exactly stays a z3 numeral (exact product)
+    for p, q in ((a, b), (b, a)):
+        if is_z3(p) and z3.is_rational_value(p) and is_z3(q) and not isinstance(q, XR):
+            fr = p.as_fraction()
+            if fractions.Fraction(float(fr)) != fr:
+                x, y = lift2(p, q)
+                return x * y
     # both symbolic: an ite with a zero branch distributes (keeps "masked weight * anything = 0" syntactic)
     for p, q in ((a, b), (b, a)):
         if z3.is_app_of(p, z3.Z3_OP_ITE):
@@ -294,6 +363,7 @@ def s_mul(a, b):
 INT_DIV_RANGE = (-16, 16)
 
 
+@_dual_arith("div")
 def s_div(a, b, obligations=None):
     """true division (float result) with IEEE semantics for a zero divisor"""
     if anyfp(a, b):
